@@ -42,7 +42,7 @@ def run(tier, seed):
     r = tlc("WidenChain", "WidenChain", "c05-chainjudge", env={"DOM_TRACES": tp, "CHAIN_CAP": CAP, "CHAIN_TAIL": TAIL}, cont=True)
     ck.add_tlc(r, "WidenChain")
     # long chains (longer than any legitimate number of relaxations): only the stabilisation judgement
-    nlong = 6 if tier == "quick" else 40
+    nlong = 6 if tier == "quick" else 24
     hl = []
     for i in range(nlong):
         h = hist.chain_history(ck.rng, 5000 + i, n=LONG_N, params=ck.rng.choice(c03.PARAMS), stride=True if i < 2 else None)
@@ -51,7 +51,7 @@ def run(tier, seed):
                 st["ts"] = st["ts"][:2]
         hl.append(h)
     # plain widening with arbitrary (not joined) further values over 4-5 variables in shuffled declaration order
-    nplain = 24 if tier == "quick" else 90
+    nplain = 24 if tier == "quick" else 60
     hplain = [hist.plain_chain_history(ck.rng, 6000 + i, n=LONG_N, params=ck.rng.choice(c03.PARAMS)) for i in range(nplain)]
     # (replayed on the environment-based domains and one representative of every other family: 110-step chains are slow
     # on the disjunctive and term domains)
